@@ -247,7 +247,7 @@ impl Engine for CmdSim {
     fn runs(&self, tier: Tier) -> u64 {
         match tier {
             Tier::Quick => 60_000,
-            Tier::Thorough => 1_500_000,
+            Tier::Thorough => 6_000_000,
         }
     }
     fn heartbeat(&self) -> u64 {
